@@ -254,8 +254,14 @@ class Register:
         return alias_from.resolve_qubit(start + idx * step, context)
 
     def __getitem__(self, key):
-        if isinstance(key, int) and key < 0:
-            raise JaqalError("Index out of range.")
+        if isinstance(key, int):
+            # Check the range before the index is formatted into a name
+            try:
+                size = int(self.size)
+            except (JaqalError, TypeError):
+                size = None
+            if key < 0 or (size is not None and key >= size):
+                raise JaqalError("Index out of range.")
         name = make_item_name(self, key)
         if isinstance(key, slice):
             raise JaqalError(
